@@ -385,14 +385,21 @@ def run_scenario(sc):
             inst.txns.append(rec)
             futs = []
 
-            async def sender_task(items, rec=rec, futs=futs):
+            prebuilt = {}
+            for items0 in txn["tasks"]:
+                for it0 in items0:
+                    if it0.get("batch") and it0.get("prebuilt"):
+                        prebuilt[id(it0)] = p.create_batch()      # outside any transaction
+
+            async def sender_task(items, rec=rec, futs=futs, prebuilt=prebuilt):
                 for it in items:
                     if it.get("sleep"):
                         await asyncio.sleep(it["sleep"])
                     if it.get("batch"):
                         # the batch API: create_batch() + send_batch(); optionally the application cancels the
                         # returned future (e.g. a wait_for() that timed out) `cancel_after` seconds later
-                        builder = p.create_batch()
+                        # ("prebuilt": the application created the builder before begin_transaction())
+                        builder = prebuilt.pop(id(it), None) or p.create_batch()
                         rids, srecs = [], []
                         for _ in range(it.get("n", 1)):
                             state["rid"] += 1
